@@ -354,7 +354,7 @@ def onLine (st : St) (n : Nat) (l : String) : IO St := do
 def main : IO UInt32 := do
   let init : St := {}
   let init ← match currentProgram with
-    | some P => pure { init with P := P, t := init.t.bump ("program-buf-" ++ "_".intercalate P.buf.tokens) }
+    | some P => pure { init with P := P, t := init.t.bump ("program-buf-" ++ ((Source.BufExpr.go P.buf).replace " " "").replace "," ";") }
     | none => do
       IO.println s!"MISMATCH 0 the buffer expression of compareFile {Generated.c13_compare_buf} is outside the model's vocabulary"
       pure { init with t := { init.t with mismatches := 1 } }
